@@ -17,7 +17,7 @@ LEAN_MODULES = ["CoapVerif.Props.C03"]
 NAMESPACE = "Coap.C03"
 REQUIRED_THEOREMS = ["parse_eq_spec", "optLenTable_matches_rfc", "reserved_nibble_rejected",
                      "number_above_65535_rejected", "truncated_value_rejected", "marker_without_payload_rejected",
-                     "nonempty_empty_rejected", "every_wellformed_accepted", "accessors_report_wire"]
+                     "nonempty_empty_rejected", "every_wellformed_accepted", "accessors_report_wire", "parse_never_oob"]
 RULE = ("byte strings for udp/tcp/ws framing: valid encodings from an independent generator (token/option/payload "
         "length classes on both sides of 12/13, 268/269, 65804), 1-3 field-level mutations of them (nibbles, extension "
         "bytes, TKL, length prefix, marker, truncation), blind random bytes, the fixed corpus; non-trivial = distinct "
@@ -73,11 +73,6 @@ def generate(ctx, escalate=False):
 
 def judge(ctx, c):
     i, m, s = c["impl"], c["model"], c["spec"]
-    if m == "oob":
-        # M reads past the message bytes (inside libcoap's own PDU allocation): observable in M, judged by C02;
-        # for C03 the verdict of such a run is a rejection (theorem parse_eq_spec is stated through R.toOption)
-        ctx.cov["model_oob_cases"] = ctx.cov.get("model_oob_cases", 0) + 1
-        m = "rej"
     if i != s:
         return ("spec", "implementation %s but the reference decoding is %s" % (short(i), short(s)))
     if i != m:
